@@ -60,6 +60,13 @@ fn main() {
             let ctx = Ctx { id: id.clone(), tier, seed, threads, scale };
             std::process::exit(wpv::driver::run_check(&ctx, replay.as_deref(), only.as_deref()));
         }
+        "rules" => {
+            // the rule each check applies, as stated in its definition (DESIGN.md section 9.7 is generated from this)
+            for d in wpv::checks::all() {
+                let rule = d.rule.split_whitespace().collect::<Vec<_>>().join(" ");
+                println!("#### {}\n\nSub-checks: {}.\n\n{}\n\nAssumptions: {}\n", d.id, d.subs.iter().map(|s| format!("`{}`", s.name)).collect::<Vec<_>>().join(", "), rule, d.assumptions.join("; "));
+            }
+        }
         "fuzz-decode" => {
             // wpv fuzz-decode swapstep <file>: the structured case a fuzz input stands for
             let data = std::fs::read(args.get(3).unwrap_or_else(|| usage())).expect("read input");
